@@ -66,7 +66,7 @@ impl Block {
 
 pub struct Heap {
     pub live: BTreeMap<usize, Block>,
-    pub quarantine: Vec<Block>,
+    pub quarantine: std::collections::VecDeque<Block>,
     pub events: Vec<Event>,
     /// allocator requests (alloc + realloc) since `begin_case`
     pub requests_total: u64,
@@ -87,7 +87,7 @@ impl Heap {
     fn new() -> Self {
         Heap {
             live: BTreeMap::new(),
-            quarantine: Vec::new(),
+            quarantine: std::collections::VecDeque::new(),
             events: Vec::new(),
             requests_total: 0,
             fault_plan: Vec::new(),
@@ -159,12 +159,16 @@ impl Heap {
         }
         unsafe { std::ptr::write_bytes(b.start as *mut u8, FREED_BYTE, b.size) };
         self.quarantine_bytes += b.size;
-        self.quarantine.push(b);
-        // keep memory bounded for long loops: release the oldest blocks after verifying them
-        while self.quarantine_bytes > (256 << 20) && self.quarantine.len() > 1 {
-            let old = self.quarantine.remove(0);
+        self.quarantine.push_back(b);
+        // keep memory bounded for long loops (sweeps over billions of values inside one case): release the oldest
+        // blocks after verifying them, and forget the oldest part of the event log
+        while (self.quarantine_bytes > (256 << 20) || self.quarantine.len() > 8192) && self.quarantine.len() > 1 {
+            let old = self.quarantine.pop_front().unwrap();
             self.quarantine_bytes -= old.size;
             self.release_quarantined(old);
+        }
+        if self.events.len() > (1 << 20) {
+            self.events.clear();
         }
     }
 
